@@ -791,8 +791,8 @@ class Manly(Transform):
     def _forward(self, x):
         lam = self.params.values[0]
         xmax = self.get_xmax()
-        if abs(lam-EPS) > 0.:
-            u = x / xmax
+        u = x / xmax
+        if abs(lam) > EPS:
             return (np.exp(lam * u) - 1) / lam
         else:
             return u
@@ -800,7 +800,7 @@ class Manly(Transform):
     def _backward(self, y):
         lam = self.params.values[0]
         xmax = self.get_xmax()
-        if abs(lam - EPS) > 0.:
+        if abs(lam) > EPS:
             return xmax * np.log(1 + lam * y) / lam
         else:
             return xmax * y
@@ -808,11 +808,11 @@ class Manly(Transform):
     def _jacobian(self, x):
         lam = self.params.values[0]
         xmax = self.get_xmax()
-        if abs(lam-EPS) > 0.:
+        if abs(lam) > EPS:
             u = x / xmax
             return np.exp(lam * u) / xmax
         else:
-            return np.one_likes(x) / xmax
+            return np.ones_like(x) / xmax
 
     def params_sample(self, nsamples=500, minval=-5., maxval=5.):
         # Generate parameters samples in log space
